@@ -6,7 +6,11 @@ import concurrent.futures as cf
 
 VERIF = os.path.dirname(os.path.dirname(os.path.abspath(__file__)))
 SPEC = os.path.join(VERIF, "spec")
-BIN = os.path.join(VERIF, "bin")
+# Self-validation only (tools/seeded_matrix_par.sh): check another tree than /repo and keep all outputs apart, so that
+# seeded changes can be tried in parallel in scratch worktrees. Registered commands never set these.
+TREE = os.environ.get("VERIF_SELFTEST_TREE", "/repo")
+OUT = os.environ.get("VERIF_SELFTEST_OUT", VERIF)
+BIN = os.path.join(OUT, "bin")
 JAR = "/opt/veriftools/tla/tla2tools.jar:/opt/veriftools/tla/CommunityModules-deps.jar"
 GOENV = dict(os.environ, GOFLAGS="-mod=mod", GOPROXY="off", GOSUMDB="off", GOTOOLCHAIN="local")
 NPAR = int(os.environ.get("VERIF_PAR", "8"))
@@ -32,8 +36,15 @@ def build():
         return
     os.makedirs(BIN, exist_ok=True)
     h = os.path.join(VERIF, "harness")
+    if TREE != "/repo":
+        h2 = os.path.join(OUT, "harness")
+        shutil.rmtree(h2, ignore_errors=True)
+        shutil.copytree(h, h2)
+        gm = open(os.path.join(h2, "go.mod")).read().replace("=> /repo", "=> " + TREE)
+        open(os.path.join(h2, "go.mod"), "w").write(gm)
+        h = h2
     gosum = os.path.join(h, "go.sum")
-    shutil.copyfile("/repo/go.sum", gosum)
+    shutil.copyfile(os.path.join(TREE, "go.sum"), gosum)
     t0 = time.time()
     p = subprocess.run(["go", "build", "-tags", "verif", "-o", os.path.join(BIN, "vdrive"), "./cmd/vdrive"],
                        cwd=h, env=GOENV, capture_output=True, text=True)
@@ -417,6 +428,87 @@ def run_mbt_job(job, scratch):
     return r
 
 
+def run_slin_job(job, scratch):
+    """C17/C18 concurrent part: driver 'simple|kvs -sconc N' -> SimpleLin.tla / KvsLin.tla. A history is accepted iff the
+    search consumed all its lines; a crash probe is accepted iff some path's state at its line equals the recovered state."""
+    trace = os.path.join(scratch, job["name"] + ".ndjson")
+    cmd = [os.path.join(BIN, "vdrive")] + job["driver"] + ["-out", trace]
+    t0 = time.time()
+    p = subprocess.run(cmd, capture_output=True, text=True, timeout=job.get("driver_timeout", 1800), cwd=scratch)
+    if p.returncode != 0:
+        raise Infra("driver failed (%d): %s\n%s" % (p.returncode, " ".join(cmd), (p.stdout + p.stderr)[-3000:]))
+    tdrv = time.time() - t0
+    mod = job["module"]
+    out, st = run_tlc(mod + ".tla", mod + ".cfg", scratch, env={"TRACE": trace}, timeout=job.get("tlc_timeout", 3000), xmx="6g")
+    if "No error has been found" not in out:
+        raise Infra("%s search failed on %s:\n%s" % (mod, trace, out[-3000:]))
+    prop = job["prop"]
+    lines = open(trace).readlines()
+    n = len(lines)
+    hw, starts, unmatched = {}, {}, []
+    for ln in out.splitlines():
+        ln = ln.strip()
+        m = re.match(r'"HW (-?\d+) (\d+) (\d+)"', ln)
+        if m:
+            hw[int(m.group(1))] = int(m.group(3))
+            starts[int(m.group(1))] = int(m.group(2))
+    if "-crashpoints" in job["driver"]:   # probes are matched with the replies of read-only calls left unchecked (see the module)
+        out2, st2 = run_tlc(mod + ".tla", mod + ".cfg", scratch, env={"TRACE": trace, "RELAX": "1"}, timeout=job.get("tlc_timeout", 3000), xmx="6g")
+        if "No error has been found" not in out2:
+            raise Infra("%s search (RELAX) failed on %s:\n%s" % (mod, trace, out2[-3000:]))
+        st["distinct"] += st2["distinct"]; st["generated"] += st2["generated"]; st["wall"] += st2["wall"]
+        for ln in out2.splitlines():
+            m = re.match(r'"UNMATCHED (\d+)"', ln.strip())
+            if m:
+                unmatched.append(int(m.group(1)))
+    order = sorted(starts, key=lambda k: starts[k])
+    viols, ncalls, nprobes, sample = [], 0, 0, []
+
+    def sm(c):
+        if "op" in c:
+            return "%s %s -> %s ok=%s val=%s" % (c["op"], c["pairs"] if c["op"] == "put" else c["key"], c["st"], c["ok"], c.get("val"))
+        return summ(c)
+    for idx, sg in enumerate(order):
+        end = starts[order[idx + 1]] if idx + 1 < len(order) else n + 1
+        evs = [json.loads(x) for x in lines[starts[sg] - 1:end - 1]]
+        calls = [e["call"] for e in evs if e.get("ev") == "inv"]
+        ncalls += len(calls)
+        nprobes += sum(1 for e in evs if e.get("ev", "").endswith("crashprobe"))
+        if not sample:
+            sample = [sm(c) for c in calls[-12:]]
+        reset = evs[0]
+        ctx = [("inv c%d " % e["cl"]) + sm(e["call"]) if e["ev"] == "inv" else "ret c%d %d" % (e["cl"], e["call"]["i"])
+               for e in evs if e.get("ev") in ("inv", "ret")]
+        reached = hw.get(sg, starts[sg])
+        if reached < end:
+            noreply = [c for c in calls if c["st"] in ("TIMEOUT", "PANIC")]
+            ev = json.loads(lines[reached - 1]) if reached - 1 < len(lines) else {}
+            if noreply:
+                ev, rules = noreply[0], ["ALL,%s,C11:no-reply-%s" % (prop, noreply[0]["st"])]
+            else:
+                if ev.get("ev") == "ret":
+                    want = ev["call"]["i"]
+                    ev = next((c for c in calls if c["i"] == want), ev)
+                else:
+                    ev = ev.get("call", ev)
+                rules = [prop + ":history-has-no-linearization"]
+            viols.append({"line": reached, "seg": sg, "rules": rules, "ev": "inv", "proc": ev.get("proc", ev.get("op", "")), "job": job["name"],
+                          "driver_cmd": job["driver"], "event": ev if isinstance(ev, dict) else {}, "driver": reset.get("driver", ""),
+                          "seed": reset.get("seed", 0), "stuck_at": (lines[reached - 1][:300] if reached - 1 < len(lines) else "end"),
+                          "context": ctx[-60:]})
+        for u in unmatched:
+            if starts[sg] <= u < min(end, reached):
+                ev = json.loads(lines[u - 1])
+                before = [json.loads(x) for x in lines[starts[sg] - 1:u - 1]]
+                viols.append({"line": u, "seg": sg, "rules": [prop + ":recovered-state-matches-no-linearization-prefix"], "ev": ev["ev"], "proc": "",
+                              "job": job["name"], "driver_cmd": job["driver"], "event": ev, "driver": reset.get("driver", ""), "seed": reset.get("seed", 0),
+                              "context": [("inv c%d " % e["cl"]) + sm(e["call"]) if e["ev"] == "inv" else "ret c%d %d" % (e["cl"], e["call"]["i"])
+                                          for e in before if e.get("ev") in ("inv", "ret")][-60:]})
+    os.remove(trace)
+    return {"name": job["name"], "viols": viols, "events": n, "segments": len(order), "calls": ncalls, "probes": nprobes,
+            "states": st["distinct"], "transitions": st["generated"], "tdrv": tdrv, "ttlc": st["wall"], "sample": sample}
+
+
 def run_job(job, scratch):
     """job: {name, driver: [args...], module, cfg}. Returns result dict."""
     if job.get("kind") == "mbt":
@@ -427,6 +519,8 @@ def run_job(job, scratch):
         return run_lock_job(job, scratch)
     if job.get("kind") == "lin":
         return run_lin_job(job, scratch)
+    if job.get("kind") == "slin":
+        return run_slin_job(job, scratch)
     if job.get("kind") == "mc":
         return run_mc_job(job, scratch)
     if job.get("kind") == "apalache":
@@ -717,6 +811,14 @@ def plan(prop, tier, seed, known):
             jobs.append({"name": "%scrash%d" % (cmd, i), "module": mod + ".tla", "cfg": mod + ".cfg",
                          "driver": [cmd, "-seed", str(seed * 100 + 50 + i), "-segs", "2" if q else "4", "-steps", "60", "-disk", "2000",
                                     "-crashpoints", "-loss", "2" if q else "6", "-avoid", av]})
+        lmod = "SimpleLin" if prop == "C17" else "KvsLin"
+        for i in range(3 if q else 24):   # concurrent clients on the same file / overlapping key sets; linearizability search
+            jobs.append({"name": "%sconc%d" % (cmd, i), "kind": "slin", "module": lmod, "prop": prop,
+                         "driver": [cmd, "-seed", str(seed * 100 + 60 + i), "-segs", "40" if q else "80", "-steps", "5", "-sconc", str(2 + i % 3), "-disk", "2000"]})
+        for i in range(3 if q else 24):   # ... and every crash point of such histories
+            jobs.append({"name": "%sconccrash%d" % (cmd, i), "kind": "slin", "module": lmod, "prop": prop,
+                         "driver": [cmd, "-seed", str(seed * 100 + 70 + i), "-segs", "8" if q else "16", "-steps", "4", "-sconc", str(2 + i % 2), "-disk", "2000",
+                                    "-crashpoints", "-loss", "2" if q else "5"]})
         if prop == "C18":
             for i in range(2 if q else 8):
                 jobs.append({"name": "kvsbig%d" % i, "module": mod + ".tla", "cfg": mod + ".cfg", "driver_timeout": 3000,
@@ -756,11 +858,11 @@ def tags_of(rule):
 
 
 def write_replay(prop, v):
-    os.makedirs(os.path.join(VERIF, "replays"), exist_ok=True)
+    os.makedirs(os.path.join(OUT, "replays"), exist_ok=True)
     body = {"property": prop, "driver_cmd": v["driver_cmd"], "job": v["job"], "segment": v["seg"], "seed": v.get("seed"),
             "driver": v.get("driver"), "line": v["line"], "rules": v["rules"], "want": v.get("want"), "detail": v.get("detail"), "stuck_at": v.get("stuck_at"), "event": v["event"], "context": v.get("context", [])}
     h = hashlib.sha1(json.dumps(body, sort_keys=True).encode()).hexdigest()[:10]
-    path = os.path.join(VERIF, "replays", "%s-%s.json" % (prop, h))
+    path = os.path.join(OUT, "replays", "%s-%s.json" % (prop, h))
     json.dump(body, open(path, "w"), indent=1)
     return path
 
@@ -830,8 +932,8 @@ def run_check(prop, tier, seed):
         "wall_s": round(time.time() - t0, 2),
         "violations": nviol,
     }
-    os.makedirs(os.path.join(VERIF, "evidence"), exist_ok=True)
-    json.dump(ev, open(os.path.join(VERIF, "evidence", prop + ".json"), "w"), indent=1)
+    os.makedirs(os.path.join(OUT, "evidence"), exist_ok=True)
+    json.dump(ev, open(os.path.join(OUT, "evidence", prop + ".json"), "w"), indent=1)
     log("%s %s: %d segments, %d calls, %d violations, %d known findings, %.1fs" % (
         prop, tier, ev["coverage"]["traces_validated_against_impl"], ev["coverage"]["rpc_calls_validated"], nviol,
         len(kf_seen), time.time() - t0))
